@@ -8,6 +8,7 @@ import (
 	"fmt"
 	"math/rand"
 	"strings"
+	"sync/atomic"
 	"testing"
 	"testing/synctest"
 	"time"
@@ -73,6 +74,77 @@ func schedCells() []schedCell {
 			time.Sleep(tE + 2*tP)
 			newProcs(e, ps, 1)
 		}},
+		{"ik+sk-revoked-warm-p0", 2, 1, 0, func(e *env, ps []*proc) {
+			// process 0 is long-lived and still holds the (now revoked) SK and IK in its caches; process 1 is cold
+			ps[0].f = e.w.Factory(cfgOf("simple"), "svc", "prod")
+			ps[0].s, _ = ps[0].f.GetSession("P")
+			pl := []byte("warm-up")
+			d, err := ps[0].s.Encrypt(context.Background(), pl)
+			if err != nil {
+				panic(err)
+			}
+			e.priors = append(e.priors, prior{"P", pl, d})
+			e.revoke("ik")
+			e.revoke("sk")
+			time.Sleep(tR/2 + 2*tP) // a later stamp is creatable; process 0's caches are still fresh
+			newProcs(e, ps, 1)
+		}},
+		{"ik+sk-revoked-stale-p0", 2, 1, 0, func(e *env, ps []*proc) {
+			ps[0].f = e.w.Factory(cfgOf("simple"), "svc", "prod")
+			ps[0].s, _ = ps[0].f.GetSession("P")
+			pl := []byte("warm-up")
+			d, err := ps[0].s.Encrypt(context.Background(), pl)
+			if err != nil {
+				panic(err)
+			}
+			e.priors = append(e.priors, prior{"P", pl, d})
+			e.revoke("ik")
+			e.revoke("sk")
+			time.Sleep(2*tR + 2*tP)
+			newProcs(e, ps, 1)
+		}},
+		{"ik+sk-revoked-p0-sk-fresh-ik-stale", 2, 1, 0, func(e *env, ps []*proc) {
+			// process 0 re-read the SK shortly before it was revoked (through another partition), so its SK cache
+			// entry is still fresh and looks valid while its IK entry for P is stale: it rotates P's IK under the
+			// revoked SK while the cold process 1 rotates the SK as well
+			ps[0].f = e.w.Factory(cfgOf("simple"), "svc", "prod")
+			ps[0].s, _ = ps[0].f.GetSession("P")
+			pl := []byte("warm-up")
+			d, err := ps[0].s.Encrypt(context.Background(), pl)
+			if err != nil {
+				panic(err)
+			}
+			time.Sleep(tR + time.Second)
+			q, _ := ps[0].f.GetSession("Q")
+			if _, err := q.Encrypt(context.Background(), pl); err != nil { // reloads the stale SK entry
+				panic(err)
+			}
+			q.Close()
+			e.priors = append(e.priors, prior{"P", pl, d})
+			e.revoke("ik")
+			e.revoke("sk")
+			time.Sleep(tR / 2) // P's IK entry (loaded at the start) is stale, the SK entry is not
+			newProcs(e, ps, 1)
+		}},
+		{"cold-slow-kms-and-aead", 2, 1, 0, func(e *env, ps []*proc) {
+			// key creation is slow: wrapping a new key takes longer than one creation-date precision unit
+			e.w.KMS.Latency = func(op string) time.Duration {
+				if op == "encrypt" {
+					return tP + 7*time.Second
+				}
+				return 0
+			}
+			n := 0
+			e.w.AEAD.Latency = func(string) time.Duration {
+				n++
+				if n <= 2 {
+					return tP + 3*time.Second
+				}
+				return 0
+			}
+			time.Sleep(tP - 20*time.Second) // close to a precision boundary
+			newProcs(e, ps, 0)
+		}},
 		{"cold-3proc", 3, 1, 0, cold},
 		{"both-expired-3proc", 3, 1, 0, func(e *env, ps []*proc) { e.producer("P", 1); time.Sleep(tE + 2*tP); newProcs(e, ps, 0) }},
 		{"cold-3proc-2enc(sampled)", 3, 2, 6000, cold},
@@ -116,9 +188,12 @@ func runSchedule(c schedCell, d *sched.DFS) (res schedResult) {
 	e.w.MS.WhoFn = sched.Label
 	e.w.MS.Gate = func(mc *probe.MSCall) { ctrl.Park(mc.Op + ":" + shortID(mc.ID)) }
 	msFrom := e.w.MS.N()
+	var live atomic.Int32
+	live.Store(int32(len(ps)))
 	for _, p := range ps {
 		p := p
 		go func() {
+			defer live.Add(-1)
 			sched.SetLabel(p.label)
 			defer sched.ClearLabel()
 			defer func() {
@@ -139,7 +214,12 @@ func runSchedule(c schedCell, d *sched.DFS) (res schedResult) {
 		synctest.Wait()
 		parked := ctrl.Parked()
 		if len(parked) == 0 {
-			break
+			if live.Load() == 0 {
+				break
+			}
+			// nobody is parked but somebody is still running: it sleeps inside a slow external call
+			time.Sleep(time.Second)
+			continue
 		}
 		k := d.Choose(len(parked))
 		ctrl.Release(parked[k].Label)
